@@ -6,6 +6,10 @@ sys.path.insert(0, os.path.join(os.path.dirname(os.path.abspath(__file__)), ".."
 import vf
 import lanes
 import fpgen
+sys.path.insert(0, os.path.dirname(os.path.abspath(__file__)))
+import c01
+import c02
+import c07
 
 FT = [("f32", 4, 8, 23), ("f64", 8, 11, 52)]
 MATH = ["exp", "exp2", "exp10", "expm1", "log", "log2", "log10", "log1p", "sin", "cos", "tan", "asin", "acos", "atan", "sinh", "cosh", "tanh",
@@ -121,6 +125,23 @@ def body(ctx):
         out += list(groups.values())
     ctx.log("events: %d recorded, %d judged" % (len(events), len(out)))
     lanes.validate(ctx, "T_Math.tla", out, "c13", plan_lines=plan)
+    # the exact operations of C01/C02/C07: rows whose lanes hold different values, each lane judged against the scalar meaning of ITS operands
+    # (T_Int / T_Float) - a result that depends on a neighbouring lane (a carry leaking across an emulated 8-bit multiply, ...) is rejected
+    if ctx.replay:
+        xl = [l for l in lanes.replay_plan(ctx.replay) if l.split()[0] != "m1"]
+        ip = [l for l in xl if l.split()[2] not in ("f32", "f64")]
+        fp = [l for l in xl if l.split()[2] in ("f32", "f64")]
+    else:
+        # (operations with a recorded deviation of C02/C07 - signed rotates, ldexp, frexp - are wrong in a lane-independent way: not C13's subject)
+        skip = lambda l: (l.split()[1] in ("ldexp", "frexp")) or (l.split()[1].startswith("rot") and l.split()[2][0] == "i")
+        ip = [l for l in c01.make_plan(ctx)[:: ctx.q(5, 2)] + c07.make_plan(ctx)[:: ctx.q(9, 3)] if not skip(l)]
+        fp = [l for l in c02.make_plan(ctx)[:: ctx.q(5, 2)] if not skip(l)]
+    if ip:
+        ev, ip = lanes.record(ctx, "int", ip, "c13int")
+        lanes.validate(ctx, "T_Int.tla", ev, "c13int", plan_lines=ip)
+    if fp:
+        ev, fp = lanes.record(ctx, "float", fp, "c13flt")
+        lanes.validate(ctx, "T_Float.tla", ev, "c13flt", plan_lines=fp)
     return dict(exhaustive=False,
                 rule="for every elementary function (25) and 4 exact float operations, float and double, 22 architectures + scalar: rows mixing operand classes on both sides of every whole-batch "
                      "any()/all() test (tiny/small/mid/medium/big/large/huge/negative-gamma/NaN/inf/zero/subnormal; one outlier lane, alternating, fully mixed), and for EVERY lane position the same value "
